@@ -91,14 +91,15 @@ def stepLine (d : DState) (line : String) : DState × String :=
     | none => (d, "bad-op")
   | "stale" :: rest =>
     -- a poll that outlasts the time-out (see the harness): the targets are requested from node 1 and
-    -- recorded for node 2 at time 2; node 2's poll reads `now` = 4 but reaches the entries at time 8
-    -- (time-out 2); node 4 then announces the txids the poll handed out last.
+    -- recorded for node 2 at time 2; node 2's poll starts at time 4 but reaches the entries at time 8
+    -- (time-out 2) and stamps them with that time; node 4 then announces the txids the poll handed
+    -- out last and must be refused (regression for repository fix 9c84f1c).
     match d.staleMode, kvNat rest "fill", kvNat rest "targets", kvNat rest "tail", kvNat rest "slow" with
     | true, some fill, some t, some k, some 1 =>
       if fill < 1000 || fill > 2000000 || t < 256 || t > 4096 || k < 1 || k > t then (d, "bad-op") else
       let env : Env := { timeout := 2 }
       let st0 := (List.range t).foldl (fun s x => (addTxID env (addTxID env s 1 x 2).1 2 x 2).1) ({} : Store)
-      let r := pollBuckets env 2 1000000000 4 { st0 with clock := 8 } allBuckets []
+      let r := pollBuckets env 2 1000000000 { st0 with clock := 8 } allBuckets []
       let res := (r.2.reverse.take k).foldl
         (fun (acc : Store × Nat) x => let a := addTxID env acc.1 4 x 8; (a.1, acc.2 + (if a.2 then 1 else 0))) (r.1, 0)
       (d, s!"got={r.2.length} dup={res.2}")
